@@ -1039,4 +1039,6 @@ pub fn run(run: &Run) {
         let rl_rest = rest.iter().filter(|f| { let rl: Vec<&str> = raw_labels[&f.idx].split('+').collect(); !sigs.iter().any(|s| explains(s, f, &rl)) }).count();
         run.add("failures:neither-shrunk-nor-explained", rl_rest as u64);
     }
+    // thorough: the same quick workload once more under the AddressSanitizer build (memory errors in the library or its dependencies)
+    if !run.quick() { crate::lanes::asan_rerun(run); }
 }
